@@ -148,6 +148,13 @@ pub fn run(tier: Tier) -> i32 {
     run.assume("component-wise `same` (numbers numerically equal or both NaN) is the intended equality");
     run.assume("serde_json is trusted as the JSON text layer");
     crate::engine::quiet_panics();
+    {
+        let pool: Vec<V> = super::c01::probe_pool();
+        if super::common::probe_first(&mut run, "hayson-codec", &pool, &hayson_observation, &|v: &V| to_json(v)) {
+            return run.finish(&replay);
+        }
+    }
+    crate::engine::quiet_panics();
     let scalars = u::scalars(tier);
     let l = par_for(scalars.len(), |i, local| {
         let v = &scalars[i];
@@ -295,6 +302,10 @@ pub fn run(tier: Tier) -> i32 {
 }
 
 pub fn replay(case: &J) -> Verdict {
+    if case["free_running"] == "hayson-codec" {
+        let pool: Vec<V> = super::c01::probe_pool();
+        return super::common::replay_probe(&pool, &hayson_observation, &|v: &V| to_json(v));
+    }
     if case["history_repeats"].is_string() {
         return super::common::replay_history_repeats(case, &|j| crate::model::v::from_json(j), &hayson_observation, "hayson-codec");
     }
